@@ -327,7 +327,47 @@ func runOnce(line string) string {
 			return "BAD init results differ between callers: " + strings.Join(inits[0], " ") + " vs " + strings.Join(inits[g], " ")
 		}
 	}
+	if bad := siblingAnnotations(seed); bad != "" {
+		return bad
+	}
 	return fmt.Sprintf("ONCE chains=%d singleton=1 static_once init_same", nChains)
+}
+
+// siblingAnnotations: Singleton(p) and Memoize(p) are annotated copies of one provider.  Whichever
+// is bound first, the Singleton copy runs once whatever its input and the Memoize copy once per
+// input: binding one collection must not change what the other does.
+func siblingAnnotations(seed int64) string {
+	var calls int32
+	base := nject.Provide("render", func(a T1) T5 {
+		atomic.AddInt32(&calls, 1)
+		return T5{P: a.S}
+	})
+	run := func(annotated any, k int) (int, string) {
+		var invoke func() T5
+		err := nject.Sequence(fmt.Sprintf("sib%d", k), T1{S: k}, annotated, func(t T5) T5 { return t }).Bind(&invoke, nil)
+		if err != nil {
+			return 0, "BAD sibling bind: " + sanitize(err.Error())
+		}
+		return invoke().P, ""
+	}
+	var single, memo [2]int
+	for phase := 0; phase < 2; phase++ {
+		for k := 1; k <= 2; k++ {
+			var bad string
+			if (phase == 0) == (seed%2 == 0) {
+				single[k-1], bad = run(nject.Singleton(base), k)
+			} else {
+				memo[k-1], bad = run(nject.Memoize(base), k)
+			}
+			if bad != "" {
+				return bad
+			}
+		}
+	}
+	if single != [2]int{1, 1} || memo != [2]int{1, 2} {
+		return fmt.Sprintf("BAD sibling annotations: Singleton copy gave %v (want [1 1]), Memoize copy gave %v (want [1 2])", single, memo)
+	}
+	return ""
 }
 
 // ---------- isolation (C08) ----------
